@@ -101,62 +101,107 @@ impl Range {
     }
 }
 
+/// members as the subject declares them: borrowed ones must point into the input, owned copies
+/// have nothing to check (so a member that changes between the two still compiles and is judged)
+trait Held {
+    fn held(&self, what: &str, rg: &Range) -> Result<(), (String, String)>;
+}
+impl Held for &[u8] {
+    fn held(&self, what: &str, rg: &Range) -> Result<(), (String, String)> {
+        rg.holds(what, self)
+    }
+}
+impl Held for &str {
+    fn held(&self, what: &str, rg: &Range) -> Result<(), (String, String)> {
+        rg.holds(what, self.as_bytes())
+    }
+}
+impl Held for &serde_bytes::Bytes {
+    fn held(&self, what: &str, rg: &Range) -> Result<(), (String, String)> {
+        rg.holds(what, self)
+    }
+}
+impl<const N: usize> Held for &[u8; N] {
+    fn held(&self, what: &str, rg: &Range) -> Result<(), (String, String)> {
+        rg.holds(what, &self[..])
+    }
+}
+impl<const N: usize> Held for &serde_bytes::ByteArray<N> {
+    fn held(&self, what: &str, rg: &Range) -> Result<(), (String, String)> {
+        rg.holds(what, &self[..])
+    }
+}
+impl<const N: usize> Held for ctap_types::Bytes<N> {
+    fn held(&self, _: &str, _: &Range) -> Result<(), (String, String)> {
+        Ok(())
+    }
+}
+impl<const N: usize> Held for ctap_types::String<N> {
+    fn held(&self, _: &str, _: &Range) -> Result<(), (String, String)> {
+        Ok(())
+    }
+}
+impl<const N: usize> Held for serde_bytes::ByteArray<N> {
+    fn held(&self, _: &str, _: &Range) -> Result<(), (String, String)> {
+        Ok(())
+    }
+}
+impl Held for ctap_types::webauthn::PublicKeyCredentialDescriptorRef<'_> {
+    fn held(&self, what: &str, rg: &Range) -> Result<(), (String, String)> {
+        self.id.held(what, rg)?;
+        self.key_type.held(what, rg)
+    }
+}
+impl Held for ctap_types::webauthn::PublicKeyCredentialDescriptor {
+    fn held(&self, what: &str, rg: &Range) -> Result<(), (String, String)> {
+        self.id.held(what, rg)?;
+        self.key_type.held(what, rg)
+    }
+}
+impl<T: Held> Held for Option<T> {
+    fn held(&self, what: &str, rg: &Range) -> Result<(), (String, String)> {
+        match self {
+            Some(x) => x.held(what, rg),
+            None => Ok(()),
+        }
+    }
+}
+
 fn borrowed_ctap2(r: &ctap2::Request<'_>, rg: &Range) -> Result<(), (String, String)> {
-    use ctap_types::webauthn::PublicKeyCredentialDescriptorRef as D;
-    let desc = |what: &str, d: &D<'_>| -> Result<(), (String, String)> {
-        rg.holds(what, d.id)?;
-        rg.holds(what, d.key_type.as_bytes())
-    };
     match r {
         ctap2::Request::MakeCredential(x) => {
-            rg.holds("clientDataHash", x.client_data_hash)?;
+            x.client_data_hash.held("clientDataHash", rg)?;
             for d in x.exclude_list.iter().flatten() {
-                desc("excludeList", d)?;
+                d.held("excludeList", rg)?;
             }
-            if let Some(p) = x.pin_auth {
-                rg.holds("pinUvAuthParam", p)?;
-            }
+            x.pin_auth.held("pinUvAuthParam", rg)?;
         }
         ctap2::Request::GetAssertion(x) => {
-            rg.holds("rpId", x.rp_id.as_bytes())?;
-            rg.holds("clientDataHash", x.client_data_hash)?;
+            x.rp_id.held("rpId", rg)?;
+            x.client_data_hash.held("clientDataHash", rg)?;
             for d in x.allow_list.iter().flatten() {
-                desc("allowList", d)?;
+                d.held("allowList", rg)?;
             }
-            if let Some(p) = x.pin_auth {
-                rg.holds("pinUvAuthParam", p)?;
-            }
+            x.pin_auth.held("pinUvAuthParam", rg)?;
         }
         ctap2::Request::ClientPin(x) => {
-            for (n, p) in [("pinUvAuthParam", x.pin_auth), ("newPinEnc", x.new_pin_enc), ("pinHashEnc", x.pin_hash_enc)] {
-                if let Some(p) = p {
-                    rg.holds(n, p)?;
-                }
-            }
-            if let Some(s) = x.rp_id {
-                rg.holds("rpId", s.as_bytes())?;
-            }
+            x.pin_auth.held("pinUvAuthParam", rg)?;
+            x.new_pin_enc.held("newPinEnc", rg)?;
+            x.pin_hash_enc.held("pinHashEnc", rg)?;
+            x.rp_id.held("rpId", rg)?;
         }
         ctap2::Request::CredentialManagement(x) => {
             if let Some(p) = &x.sub_command_params {
-                if let Some(h) = p.rp_id_hash {
-                    rg.holds("rpIDHash", &h[..])?;
-                }
+                p.rp_id_hash.held("rpIDHash", rg)?;
                 if let Some(d) = &p.credential_id {
-                    desc("credentialID", d)?;
+                    d.held("credentialID", rg)?;
                 }
             }
-            if let Some(p) = x.pin_auth {
-                rg.holds("pinUvAuthParam", p)?;
-            }
+            x.pin_auth.held("pinUvAuthParam", rg)?;
         }
         ctap2::Request::LargeBlobs(x) => {
-            if let Some(p) = x.set {
-                rg.holds("set", p)?;
-            }
-            if let Some(p) = x.pin_uv_auth_param {
-                rg.holds("pinUvAuthParam", p)?;
-            }
+            x.set.held("set", rg)?;
+            x.pin_uv_auth_param.held("pinUvAuthParam", rg)?;
         }
         _ => {}
     }
@@ -166,13 +211,13 @@ fn borrowed_ctap2(r: &ctap2::Request<'_>, rg: &Range) -> Result<(), (String, Str
 fn borrowed_ctap1(r: &ctap1::Request<'_>, rg: &Range) -> Result<(), (String, String)> {
     match r {
         ctap1::Request::Register(x) => {
-            rg.holds("challenge", x.challenge)?;
-            rg.holds("application", x.app_id)
+            x.challenge.held("challenge", rg)?;
+            x.app_id.held("application", rg)
         }
         ctap1::Request::Authenticate(x) => {
-            rg.holds("challenge", x.challenge)?;
-            rg.holds("application", x.app_id)?;
-            rg.holds("keyHandle", x.key_handle)
+            x.challenge.held("challenge", rg)?;
+            x.app_id.held("application", rg)?;
+            x.key_handle.held("keyHandle", rg)
         }
         ctap1::Request::Version => Ok(()),
     }
@@ -232,15 +277,18 @@ pub fn check(gen: u8, input: &[u8]) -> (Verdict, &'static str) {
         let mut u = Unstructured::new(input);
         match gen {
             0 => match ctap1::Request::arbitrary(&mut u) {
-                Err(_) => Ok("ran out of bytes"),
+                Err(arbitrary::Error::NotEnoughData) => Ok("ran out of bytes"),
+                Err(e) => Err(("error-other-than-out-of-bytes".to_string(), format!("{:?}", e))),
                 Ok(r) => check_ctap1(&r, &rg).map(|_| "ctap1 request"),
             },
             1 => match ctap2::Request::arbitrary(&mut u) {
-                Err(_) => Ok("ran out of bytes"),
+                Err(arbitrary::Error::NotEnoughData) => Ok("ran out of bytes"),
+                Err(e) => Err(("error-other-than-out-of-bytes".to_string(), format!("{:?}", e))),
                 Ok(r) => check_ctap2(&r, &rg).map(|_| "ctap2 request"),
             },
             _ => match authenticator::Request::arbitrary(&mut u) {
-                Err(_) => Ok("ran out of bytes"),
+                Err(arbitrary::Error::NotEnoughData) => Ok("ran out of bytes"),
+                Err(e) => Err(("error-other-than-out-of-bytes".to_string(), format!("{:?}", e))),
                 Ok(authenticator::Request::Ctap1(r)) => check_ctap1(&r, &rg).map(|_| "ctap1 request"),
                 Ok(authenticator::Request::Ctap2(r)) => check_ctap2(&r, &rg).map(|_| "ctap2 request"),
             },
@@ -437,6 +485,89 @@ pub fn run(ctx: &'static Ctx) {
             l.fail(ctx, idx, v, || case(*gen, &input, "G5"));
         }
     });
+    // G6: a small little-endian 32-bit word (selector-like values 0..=4) at every offset of a
+    // uniform input after each variant prefix: integer members that select a mode or a length
+    {
+        let bases = [0x01u8, 0x81, 0xff];
+        let lens = [96usize, 700];
+        let words = [0u32, 1, 2, 3, 4];
+        let per_prefix: u64 = (bases.len() * words.len()) as u64 * lens.iter().map(|n| *n as u64).sum::<u64>();
+        sweep(ctx, "G6: one small 32-bit word at every offset of a uniform input after each variant prefix", prefixes.len() as u64 * per_prefix, "26 prefixes x bases {01, 81, FF} x lengths {96, 700} x every offset x little-endian words 0..=4", move |idx, l| {
+            let (gen, p) = &pr[(idx / per_prefix) as usize];
+            let mut r = idx % per_prefix;
+            let w = words[(r % 5) as usize];
+            r /= 5;
+            let base = bases[(r % 3) as usize];
+            r /= 3;
+            let (len, off) = if r < lens[0] as u64 { (lens[0], r as usize) } else { (lens[1], (r - lens[0] as u64) as usize) };
+            let mut input = p.clone();
+            let start = input.len();
+            input.resize(start + len, base);
+            for (k, b) in w.to_le_bytes().iter().enumerate() {
+                if off + k < len {
+                    input[start + off + k] = *b;
+                }
+            }
+            let (v, class) = check(*gen, &input);
+            l.bump(class);
+            if class != "ran out of bytes" {
+                l.nontrivial += 1;
+            }
+            if !v.ok {
+                l.fail(ctx, idx, v, || case(*gen, &input, "G6"));
+            }
+        });
+    }
+    // G7: presence tags and selectors: up to four bytes of an all-zero input set to 01 / 02 within
+    // the first 32 (thorough: 40) positions after each variant prefix; nested optional members
+    // are reached through their tag bytes, small integers through their low byte
+    {
+        let window: usize = if ctx.thorough() { 40 } else { 32 };
+        let vals: &[u8] = if ctx.thorough() { &[0x01, 0x02, 0x03] } else { &[0x01, 0x02] };
+        let mut combos: Vec<Vec<(u8, u8)>> = vec![vec![]];
+        let mut frontier: Vec<Vec<(u8, u8)>> = vec![vec![]];
+        for _ in 0..4 {
+            let mut next = Vec::new();
+            for c in &frontier {
+                let start = c.last().map_or(0, |x| x.0 as usize + 1);
+                for pos in start..window {
+                    for v in vals {
+                        let mut d = c.clone();
+                        d.push((pos as u8, *v));
+                        next.push(d);
+                    }
+                }
+            }
+            combos.extend(next.iter().cloned());
+            frontier = next;
+        }
+        let n = combos.len() as u64;
+        let cr = &combos;
+        sweep(ctx, "G7: up to four tag / selector bytes set in an all-zero input after each variant prefix", prefixes.len() as u64 * n, "26 prefixes x every set of <= 4 positions among the first 32 (thorough: 40) x values {01, 02} (thorough: {01, 02, 03}) on 256 zero bytes", move |idx, l| {
+            let (gen, p) = &pr[(idx / n) as usize];
+            let c = &cr[(idx % n) as usize];
+            thread_local! { static BUF: std::cell::RefCell<Vec<u8>> = std::cell::RefCell::new(Vec::with_capacity(300)); }
+            BUF.with(|buf| {
+                let mut input = buf.borrow_mut();
+                input.clear();
+                input.extend_from_slice(p);
+                let start = input.len();
+                input.resize(start + 256, 0);
+                for (pos, v) in c {
+                    input[start + *pos as usize] = *v;
+                }
+                let (v, class) = check(*gen, &input);
+                l.bump(class);
+                if class != "ran out of bytes" {
+                    l.nontrivial += 1;
+                }
+                if !v.ok {
+                    let input = input.clone();
+                    l.fail(ctx, idx, v, || case(*gen, &input, "G7"));
+                }
+            });
+        });
+    }
     // G4: UTF-8 pattern words repeated to lengths around every capacity
     let letters: [&[u8]; 8] = [b"a", "é".as_bytes(), "€".as_bytes(), "😀".as_bytes(), &[0x80], &[0xc3], &[0xe2, 0x82], &[0xf0, 0x9f, 0x98]];
     let g4words: u64 = (1..=4u32).map(|k| 8u64.pow(k)).sum();
